@@ -69,4 +69,8 @@ def run(ctx):
     fc.sample_events(ctx, t, 2, "ocgr lib")
     c = cli_runs(ctx, 12 if ctx.thorough() else 4, 300)
     fc.validate(ctx, c, "CLI comp cgr -k", "orec")
+    # a 17-million-base record (one k-mer more than 2^24 times, totals beyond 2^24) through the k-mer CGR writer as well
+    b = ctx.path("big_rows.ndjson")
+    vlib.kvh(["trace", "oligobig", ctx.seed, 1, ctx.rundir], out=b)
+    fc.validate(ctx, b, "frequencies of records given by run lengths (17 million bases) through the k-mer CGR writer, k=2,4", "obig")
     ctx.exhaustive = False
